@@ -332,7 +332,7 @@ impl<A: Read + Write + io::Seek> ZipWriter<A> {
             })
             .collect::<Result<Vec<_>, _>>()?;
 
-        let _ = readwriter.seek(io::SeekFrom::Start(directory_start)); // seek directory_start to overwrite it
+        readwriter.seek(io::SeekFrom::Start(directory_start))?; // seek directory_start to overwrite it
 
         Ok(ZipWriter {
             inner: GenericZipWriter::Storer(MaybeEncrypted::Unencrypted(readwriter)),
